@@ -249,6 +249,7 @@ def main(argv=None):
     ap.add_argument('--quiet', action='store_true')
     ap.add_argument('--digests')
     ap.add_argument('--refhash')
+    ap.add_argument('--refbatch')
     ap.add_argument('--max-runs', type=int, default=10 ** 9)
     ap.add_argument('--modes', default=None)
     ap.add_argument('--no-evidence', action='store_true')
@@ -264,6 +265,11 @@ def main(argv=None):
     if args.refhash:
         with open(args.refhash) as f:
             print(ref_hash(prop, json.load(f)['reference_request']))
+        return 0
+    if args.refbatch:
+        with open(args.refbatch) as f:
+            reqs = json.load(f)
+        print(json.dumps([ref_hash(prop, r) for r in reqs]))
         return 0
     if args.replay:
         v = replay_file(prop, args.replay, quiet=args.quiet)
@@ -304,6 +310,30 @@ def main(argv=None):
         print('# determinism self-test: %s' % json.dumps(det))
         if not det['ok']:
             all_errors.append({'kind': 'nondeterminism', 'msg': json.dumps(det)})
+
+    # ---- thorough: a sample of the fork-server references is re-evaluated in a brand-new
+    # interpreter under another hash seed and must agree bit-for-bit
+    refcheck = None
+    if tier == 'thorough' and not all_viols:
+        reqs = []
+        for st in by_mode.values():
+            reqs.extend(st.get('refsample', [])[:32])
+        if reqs:
+            import tempfile
+            with tempfile.NamedTemporaryFile('w', suffix='.json', delete=False) as tf:
+                json.dump(reqs, tf)
+            try:
+                pr = _fresh(prop, ['--refbatch', tf.name], hashseed=2718)
+                here = [ref_hash(prop, r) for r in reqs]
+                there = json.loads(pr.stdout.strip().splitlines()[-1]) if pr.returncode == 0 else None
+                refcheck = {'references_rechecked_in_fresh_interpreter': len(reqs),
+                            'agree': here == there}
+                if here != there:
+                    all_errors.append({'kind': 'nondeterminism',
+                                       'msg': 'fork-server references differ from a fresh interpreter'})
+            finally:
+                os.unlink(tf.name)
+        print('# fresh-interpreter reference cross-check: %s' % json.dumps(refcheck))
 
     # ---- classify violations: known findings vs new ones
     kf = known_findings(prop.ID)
@@ -353,6 +383,7 @@ def main(argv=None):
     if not args.no_evidence:
         ev = prop.evidence(tier, base, by_mode, det, len(new_viols), sorted(known_hits),
                            all_errors, wall)
+        ev['coverage']['fresh_interpreter_reference_crosscheck'] = refcheck
         os.makedirs(os.path.join(ROOT, 'evidence'), exist_ok=True)
         with open(os.path.join(ROOT, 'evidence', prop.ID + '.json'), 'w') as f:
             json.dump(ev, f, indent=1, default=repr)
